@@ -13,6 +13,7 @@ import (
 	"io"
 	"os"
 	"runtime"
+	"runtime/debug"
 	"sort"
 	"strings"
 	"testing"
@@ -53,8 +54,11 @@ func TestVerifC10Worker(t *testing.T) {
 		t.Skip("worker entry point")
 	}
 	runtime.GOMAXPROCS(2)
+	debug.SetGCPercent(400) // SizedDigests allocates 1 MiB per call; collect less often
 	mfgen.Serve(c10Handle)
-	os.Exit(0)
+	if os.Getenv("VERIF_C10_WORKER_PROF") == "" {
+		os.Exit(0)
+	}
 }
 
 func c10Walk(dn *dirnode, prefix string, resp *mfgen.Resp) {
@@ -545,6 +549,7 @@ func TestVerifC10(t *testing.T) {
 		t.Skip("worker process")
 	}
 	runtime.GOMAXPROCS(2) // the harness is sequential; fewer Ps = less scheduler churn on a busy machine
+	debug.SetGCPercent(400)
 	run := verifkit.Start(t, "C10")
 	defer run.Finish()
 	h := &c10Harness{run: run, w: mfgen.NewWorker("TestVerifC10Worker"), rep: mfgen.NewReporter(run)}
@@ -610,7 +615,7 @@ func TestVerifC10(t *testing.T) {
 		}
 		h.garbage(one(pr))
 	})
-	n := run.N(20000, 500000)
+	n := run.N(16000, 500000)
 	run.Cases("main", n, func(i int, _ *verifkit.Rand) {
 		pr := h.window("main", i, n, func(rng *verifkit.Rand) *c10Prep { return h.prepValid(mfgen.MainCase(rng)) })
 		run.Input(pr.c, true)
@@ -622,7 +627,7 @@ func TestVerifC10(t *testing.T) {
 			run.Checkpoint()
 		}
 	})
-	n = run.N(4000, 60000)
+	n = run.N(3000, 60000)
 	run.Cases("reject", n, func(i int, _ *verifkit.Rand) {
 		pr := h.window("reject", i, n, func(rng *verifkit.Rand) *c10Prep { return h.prepAny(mfgen.RejectCase(rng)) })
 		run.Input(pr.c, true)
@@ -631,7 +636,7 @@ func TestVerifC10(t *testing.T) {
 		}
 		h.reject(pr)
 	})
-	n = run.N(6000, 150000)
+	n = run.N(5000, 150000)
 	run.Cases("garbage", n, func(i int, _ *verifkit.Rand) {
 		pr := h.window("garbage", i, n, func(rng *verifkit.Rand) *c10Prep {
 			c := mfgen.GarbageCase(rng)
@@ -646,6 +651,10 @@ func TestVerifC10(t *testing.T) {
 		}
 		h.garbage(pr)
 	})
+	h.w.Close()
+	self, kids := mfgen.CPUSeconds()
+	run.Count("cpu_ms_harness", int(self*1000))
+	run.Count("cpu_ms_worker", int(kids*1000))
 	run.Count("worker_spawns", h.w.Spawns)
 	run.Count("worker_calls", h.w.Calls)
 	if h.w.Calls == 0 && !run.Replaying() {
